@@ -182,8 +182,13 @@ def parsed_fetch_att(att):
         # alternative representation of the RFC's equivalences
         return {"a": "body", "section": ["header" if a.endswith("header") else "text"], "partial": None, "peek": a.endswith("header")}
     if a == "body":
-        part = att.partial
-        return {"a": "body", "section": canon_section(att.section), "partial": list(part) if part is not None else None, "peek": bool(att.peek)}
+        part = getattr(att, "partial", None)
+        return {
+            "a": "body",
+            "section": canon_section(getattr(att, "section", None)),
+            "partial": list(part) if isinstance(part, (list, tuple)) else part,
+            "peek": bool(getattr(att, "peek", False)),
+        }
     if a == "bodystructure":
         return {"a": a, "ext": bool(getattr(att, "ext_data", True))}
     return {"a": a}
@@ -499,4 +504,4 @@ def finding_matches(finding, vj):
 def extra(tier, seed):
     from ..gen import c08_enum
 
-    return c08_enum.run(tier, judge, ID)
+    return c08_enum.run(tier, judge, ID, seed)
